@@ -439,21 +439,21 @@ void WaiterMain(Shared* sp, int wi)
     try {
         AdoptTemplate(S, w, S.FreshTemplate());
         for (; w.next_spec < w.specs.size() && !S.stop; ++w.next_spec) {
-            const CallSpec sp2 = w.specs[w.next_spec];
-            if (sp2.pause) std::this_thread::sleep_for(std::chrono::nanoseconds{(int64_t)sp2.pause});
+            const CallSpec spec = w.specs[w.next_spec];
+            if (spec.pause) std::this_thread::sleep_for(std::chrono::nanoseconds{(int64_t)spec.pause});
             if (S.stop) break;
-            if (sp2.refresh) AdoptTemplate(S, w, S.FreshTemplate());
+            if (spec.refresh) AdoptTemplate(S, w, S.FreshTemplate());
             CallRec c;
             c.waiter = wi;
             c.idx = w.ncalls++;
             c.gen = w.gen;
-            c.timeout = sp2.timeout;
-            c.th = sp2.th;
+            c.timeout = spec.timeout;
+            c.th = spec.th;
             c.P = w.tmpl->block.hashPrevBlock;
             c.F0 = w.tmpl_fees;
             node::BlockWaitOptions wo;
-            wo.timeout = sp2.timeout == INF ? MillisecondsDouble::max() : MillisecondsDouble{(double)sp2.timeout / 1e6};
-            wo.fee_threshold = sp2.th;
+            wo.timeout = spec.timeout == INF ? MillisecondsDouble::max() : MillisecondsDouble{(double)spec.timeout / 1e6};
+            wo.fee_threshold = spec.th;
             S.ctx.evf("w%d call#%d start gen=%d prev=%s fees=%lld timeout=%s th=%lld", wi, c.idx, c.gen, Shared::Hx(c.P).c_str(), (long long)c.F0, TimeoutName(c.timeout).c_str(), (long long)c.th);
             bool& flag = *w.flags[c.gen];
             w.in_call = true;
